@@ -20,8 +20,8 @@ package main
 
 import (
 	"fmt"
-	"math"
 	"go/token"
+	"math"
 	"regexp"
 	"sort"
 	"strings"
